@@ -16,8 +16,9 @@ func init() {
 			"(R2) who may rename / write in place: os.Rename is called only by the rename primitive, the temp-dir probe (whose two rename operands must be temp files it created itself), the symlink helper and the unpack directory move; the covered components (fstree, renameio, utils atomic helpers, updater download) contain no in-place write (os.WriteFile/Create/OpenFile-for-write) to a destination path - only the detached signature file and the extraction into the temp dir are written directly (observations); " +
 			"(R3) every renameio.TempFile is followed by a deferred Cleanup registered before anything else, every success exit passes CloseAtomicallyReplace, and the data written goes to the pending file; " +
 			"(R4) the download is published only across: copy succeeded, byte count equals Content-Length, and no checksum mismatch under the 'require' policy. " +
+			"(R5) in the covered components no error of a step that produces or publishes file content (write, copy, sync, chmod, rename, the atomic helpers themselves) is discarded. " +
 			"NOT decided: file-system semantics, crash states, concurrent readers, the run-time choice of a same-mount temp directory.",
-		Rules: []ruleFn{c17R1, c17R2, c17R3, c17R4},
+		Rules: []ruleFn{c17R1, c17R2, c17R3, c17R4, c17R5},
 	})
 }
 
@@ -452,4 +453,31 @@ func isPathPlusConstSuffix(v ssa.Value) bool {
 	}
 	cst, ok := bo.Y.(*ssa.Const)
 	return ok && cst.Value != nil && len(constString(cst.Value)) > 0
+}
+
+func c17R5(c *Ctx, r *Report) {
+	const rule = "C17-R5"
+	r.SetFloor(rule, 15)
+	targets := map[string]bool{"os.Rename": true, "os.File.Sync": true, "os.File.Write": true, "os.File.WriteString": true, "io.Copy": true, "io.CopyN": true,
+		"os.File.Chmod": true, "os.Chmod": true, "os.Symlink": true, "os.WriteFile": true, "os.MkdirAll": true, "os.Mkdir": true}
+	var fns []*ssa.Function
+	for _, fn := range c.AllFuncs() {
+		if inScope(short(fn.Pkg.Pkg.Path())) {
+			fns = append(fns, fn)
+		}
+	}
+	errUseRule(c, r, rule, fns, func(fn *ssa.Function, cc *ssa.CallCommon) (string, bool) {
+		n := calleeName(cc)
+		if targets[n] {
+			return n, true
+		}
+		if strings.HasPrefix(n, "utils/renameio.") || n == "database/storage/fstree.writeFile" ||
+			n == "utils.CreateAtomic" || n == "utils.CopyFileAtomic" || n == "utils.ReplaceFileAtomic" {
+			if strings.HasSuffix(n, ".Cleanup") {
+				return "", false // removing the temp file is best effort by design (R1/R3 cover its placement)
+			}
+			return n, true
+		}
+		return "", false
+	}, map[string]string{})
 }
